@@ -644,3 +644,70 @@ def r10_14_borrow_and_carry_use_the_right_year(ctx: Ctx) -> RuleResult:
                     else:
                         rr.fail(f.qual, f"`{unparse(s)[:80]}`: the block steps `{v}` by {off:+d} but adjusts the amount by the length of `{v}{d:+d}` (relative to the block's entry value); a {kind} needs the length of `{v}{want:+d}`", ctx.loc(f, s))
     return rr
+
+
+# ------------------------------------------------------------------------------------------- R10.15 / R10.16
+
+# the shortest year of any supported calendar (Hebrew deficient common year); reviewed against R01.5's year kinds
+SHORTEST_YEAR_DAYS = 353
+
+
+@rule("C10")
+def r10_15_single_boundary_fast_path(ctx: Ctx) -> RuleResult:
+    """_FixedLengthDatePeriodField.add has a fast path for amounts that can cross at most ONE year boundary: it adjusts the day of
+    year by the length of one neighbouring year.  That only holds while |days| is below the length of the shortest year of any
+    calendar (353 days, a deficient Hebrew year; 354 for the lunar calendars): the bound of the fast-path test is folded and
+    compared with it.  A bound of 366 is fine for solar calendars and produces day-of-year values beyond the year in lunar ones."""
+    rr = RuleResult("R10.15", "the single-year-boundary fast path of day / week addition is only taken for amounts shorter than the shortest calendar year (353 days)", min_instances=1)
+    M = ctx.M
+    f = M.func("_FixedLengthDatePeriodField.add")
+    found = False
+    for n in own_nodes(f.node):
+        if isinstance(n, ast.If) and isinstance(n.test, (ast.Compare, ast.BoolOp)) and "days_to_add" in unparse(n.test) and any(isinstance(x, ast.Call) and isinstance(x.func, ast.Attribute) and x.func.attr == "_get_days_in_year" for b in n.body for x in ast.walk(b)):
+            found = True
+            rr.inst()
+            consts = [abs(c.value if isinstance(c, ast.Constant) else -c.operand.value) for c in ast.walk(n.test)
+                      if (isinstance(c, ast.Constant) and isinstance(c.value, int)) or (isinstance(c, ast.UnaryOp) and isinstance(c.op, ast.USub) and isinstance(c.operand, ast.Constant))]
+            consts = [c for c in consts if c > 1]
+            if consts and max(consts) <= SHORTEST_YEAR_DAYS:
+                rr.ok({"fast path": unparse(n.test), "bound": max(consts)})
+            else:
+                rr.fail(f.qual, f"fast-path test `{unparse(n.test)[:60]}` admits {max(consts) - 1 if consts else '?'} days, more than the shortest calendar year ({SHORTEST_YEAR_DAYS} days): two year boundaries can be crossed while only one is handled", ctx.loc(f, n))
+    if not found:
+        raise AnalysisError(f"{f.qual}: fast-path test not found")
+    return rr
+
+
+@rule("C10")
+def r10_16_double_carry_is_symmetric(ctx: Ctx) -> RuleResult:
+    """Changing an offset can move the time of day by up to 36 hours either way, so the nanosecond-of-day can leave [0, one day)
+    by up to TWO days in either direction: the forward (`>= NPD`) and backward (`< 0`) normalisation arms must carry the same
+    number of times.  The arms are compared structurally: the number of nested carries under each."""
+    rr = RuleResult("R10.16", "normalising a nanosecond-of-day after an offset change carries as many days forwards as backwards (both arms handle two days)", min_instances=1)
+    M = ctx.M
+    for f in sorted(set(M.func_of_node.values()), key=lambda x: x.qual):
+        if isinstance(f.node, ast.Lambda) or f.name != "with_offset" or f.cls is None:
+            continue
+        for n in own_nodes(f.node):
+            if not (isinstance(n, ast.If) and "NANOSECONDS_PER_DAY" in unparse(n.test) and n.orelse and isinstance(n.orelse[0], ast.If)):
+                continue
+            par = getattr(n, "_parent", None)
+            if isinstance(par, ast.If) and n in par.body and "NANOSECONDS_PER_DAY" in unparse(par.test):
+                continue  # the nested second carry itself
+
+            def depth(stmts: list[ast.stmt], key: str) -> int:
+                d = 0
+                for s in stmts:
+                    if isinstance(s, ast.If) and key(s.test):
+                        d = max(d, 1 + depth(s.body, key))
+                return d
+
+            fwd = 1 + depth(n.body, lambda t: "NANOSECONDS_PER_DAY" in unparse(t) and ">=" in unparse(t))
+            back_if = n.orelse[0]
+            back = 1 + depth(back_if.body, lambda t: "< 0" in unparse(t))
+            rr.inst()
+            if fwd == back:
+                rr.ok({"function": f.qual, "carries each way": fwd})
+            else:
+                rr.fail(f.qual, f"the forward arm carries {fwd} day(s), the backward arm {back}: an offset change of more than 24 hours leaves a nanosecond-of-day outside [0, one day) in one direction", ctx.loc(f, n))
+    return rr
